@@ -151,10 +151,10 @@ var counterSpecs = map[uint32]struct {
 
 // ---------------------------------------------------------------- wire encoder (specification side)
 
-func be16(v uint16) []byte { b := make([]byte, 2); binary.BigEndian.PutUint16(b, v); return b }
-func be32(v uint32) []byte { b := make([]byte, 4); binary.BigEndian.PutUint32(b, v); return b }
+func sfBe16(v uint16) []byte { b := make([]byte, 2); binary.BigEndian.PutUint16(b, v); return b }
+func sfBe32(v uint32) []byte { b := make([]byte, 4); binary.BigEndian.PutUint32(b, v); return b }
 func be64(v uint64) []byte { b := make([]byte, 8); binary.BigEndian.PutUint64(b, v); return b }
-func cat(bs ...[]byte) []byte {
+func sfCat(bs ...[]byte) []byte {
 	var o []byte
 	for _, b := range bs {
 		o = append(o, b...)
@@ -170,26 +170,26 @@ func (p *aPkt) encode() []byte {
 		if p.V6 {
 			et = 0x86DD
 		}
-		o = cat(p.Dst[:], p.Src[:])
+		o = sfCat(p.Dst[:], p.Src[:])
 		if p.HasVlan {
-			o = cat(o, be16(0x8100), be16(p.TCI))
+			o = sfCat(o, sfBe16(0x8100), sfBe16(p.TCI))
 		}
-		o = cat(o, be16(et))
+		o = sfCat(o, sfBe16(et))
 	}
 	if !p.V6 {
-		o = cat(o, []byte{0x45, p.TOS}, be16(p.TotalLen), be16(p.ID), be16(uint16(p.Flags)<<13|p.FragOff),
-			[]byte{p.TTL, byte(p.L4)}, be16(p.Csum), p.Src4[:], p.Dst4[:])
+		o = sfCat(o, []byte{0x45, p.TOS}, sfBe16(p.TotalLen), sfBe16(p.ID), sfBe16(uint16(p.Flags)<<13|p.FragOff),
+			[]byte{p.TTL, byte(p.L4)}, sfBe16(p.Csum), p.Src4[:], p.Dst4[:])
 	} else {
-		o = cat(o, be32(6<<28|uint32(p.TC)<<20|p.FlowLabel), be16(p.PayLen), []byte{byte(p.L4), p.Hop}, p.Src6[:], p.Dst6[:])
+		o = sfCat(o, sfBe32(6<<28|uint32(p.TC)<<20|p.FlowLabel), sfBe16(p.PayLen), []byte{byte(p.L4), p.Hop}, p.Src6[:], p.Dst6[:])
 	}
 	switch p.L4 {
 	case 6:
-		o = cat(o, be16(p.SPort), be16(p.DPort), be32(p.Seq), be32(p.Ack), be16(uint16(p.DataOff)<<12|p.TCPFlags),
-			be16(p.Win), be16(p.L4Csum), be16(p.Urg), p.Rest)
+		o = sfCat(o, sfBe16(p.SPort), sfBe16(p.DPort), sfBe32(p.Seq), sfBe32(p.Ack), sfBe16(uint16(p.DataOff)<<12|p.TCPFlags),
+			sfBe16(p.Win), sfBe16(p.L4Csum), sfBe16(p.Urg), p.Rest)
 	case 17:
-		o = cat(o, be16(p.SPort), be16(p.DPort), be16(p.ULen), be16(p.L4Csum), p.Rest)
+		o = sfCat(o, sfBe16(p.SPort), sfBe16(p.DPort), sfBe16(p.ULen), sfBe16(p.L4Csum), p.Rest)
 	default:
-		o = cat(o, []byte{p.IType, p.ICode}, be16(p.L4Csum), p.Rest)
+		o = sfCat(o, []byte{p.IType, p.ICode}, sfBe16(p.L4Csum), p.Rest)
 	}
 	return o
 }
@@ -204,7 +204,7 @@ func (rc *aRecord) encodeBody(counter bool) []byte {
 				if f.W == 8 {
 					o = append(o, be64(rc.Vals[i])...)
 				} else {
-					o = append(o, be32(uint32(rc.Vals[i]))...)
+					o = append(o, sfBe32(uint32(rc.Vals[i]))...)
 				}
 			}
 			return o
@@ -214,15 +214,15 @@ func (rc *aRecord) encodeBody(counter bool) []byte {
 	switch rc.Fmt {
 	case 1:
 		h := rc.Pkt.encode()
-		return cat(be32(rc.Pkt.HdrProto), be32(rc.FrameLen), be32(rc.Stripped), be32(uint32(len(h))), h, xdrPad(len(h)))
+		return sfCat(sfBe32(rc.Pkt.HdrProto), sfBe32(rc.FrameLen), sfBe32(rc.Stripped), sfBe32(uint32(len(h))), h, xdrPad(len(h)))
 	case 1001:
-		return cat(be32(rc.SW[0]), be32(rc.SW[1]), be32(rc.SW[2]), be32(rc.SW[3]))
+		return sfCat(sfBe32(rc.SW[0]), sfBe32(rc.SW[1]), sfBe32(rc.SW[2]), sfBe32(rc.SW[3]))
 	case 1002:
 		t := uint32(1)
 		if len(rc.Hop) == 16 {
 			t = 2
 		}
-		return cat(be32(t), rc.Hop, be32(rc.SrcMask), be32(rc.DstMask))
+		return sfCat(sfBe32(t), rc.Hop, sfBe32(rc.SrcMask), sfBe32(rc.DstMask))
 	}
 	return rc.Opaque
 }
@@ -231,22 +231,22 @@ func (s *aSample) encode() []byte {
 	var body []byte
 	switch s.Type {
 	case 1:
-		body = cat(be32(s.Seq), be32(uint32(s.SrcType)<<24|s.SrcIdx), be32(s.Rate), be32(s.Pool), be32(s.Drops),
-			be32(s.In), be32(s.Out), be32(uint32(len(s.Recs))))
+		body = sfCat(sfBe32(s.Seq), sfBe32(uint32(s.SrcType)<<24|s.SrcIdx), sfBe32(s.Rate), sfBe32(s.Pool), sfBe32(s.Drops),
+			sfBe32(s.In), sfBe32(s.Out), sfBe32(uint32(len(s.Recs))))
 		for i := range s.Recs {
 			b := s.Recs[i].encodeBody(false)
-			body = cat(body, be32(s.Recs[i].Fmt), be32(uint32(len(b))), b)
+			body = sfCat(body, sfBe32(s.Recs[i].Fmt), sfBe32(uint32(len(b))), b)
 		}
 	case 2:
-		body = cat(be32(s.Seq), be32(uint32(s.SrcType)<<24|s.SrcIdx), be32(uint32(len(s.Recs))))
+		body = sfCat(sfBe32(s.Seq), sfBe32(uint32(s.SrcType)<<24|s.SrcIdx), sfBe32(uint32(len(s.Recs))))
 		for i := range s.Recs {
 			b := s.Recs[i].encodeBody(true)
-			body = cat(body, be32(s.Recs[i].Fmt), be32(uint32(len(b))), b)
+			body = sfCat(body, sfBe32(s.Recs[i].Fmt), sfBe32(uint32(len(b))), b)
 		}
 	default:
 		body = s.Opaque
 	}
-	return cat(be32(s.Type), be32(uint32(len(body))), body)
+	return sfCat(sfBe32(s.Type), sfBe32(uint32(len(body))), body)
 }
 
 func (d *aDatagram) encode() []byte {
@@ -254,7 +254,7 @@ func (d *aDatagram) encode() []byte {
 	if len(d.Agent) == 16 {
 		ipv = 2
 	}
-	o := cat(be32(5), be32(ipv), d.Agent, be32(d.SubID), be32(d.Seq), be32(d.UpTime), be32(uint32(len(d.Samples))))
+	o := sfCat(sfBe32(5), sfBe32(ipv), d.Agent, sfBe32(d.SubID), sfBe32(d.Seq), sfBe32(d.UpTime), sfBe32(uint32(len(d.Samples))))
 	for i := range d.Samples {
 		o = append(o, d.Samples[i].encode()...)
 	}
@@ -565,7 +565,7 @@ func genSample(r *rand.Rand, k int) aSample {
 		}
 		b := inner.encode()[8:]
 		// expanded source id / interfaces: 4 more octets each
-		s.Opaque = cat(b[:4], be32(uint32(s.SrcType)), be32(s.SrcIdx), b[8:])
+		s.Opaque = sfCat(b[:4], sfBe32(uint32(s.SrcType)), sfBe32(s.SrcIdx), b[8:])
 	case 3: // unknown standard type
 		s.Type = uint32(5 + r.Intn(4000))
 		s.Opaque = rbytes(r, 4*r.Intn(16))
@@ -652,13 +652,13 @@ func mutate(r *rand.Rand, d []byte) []byte {
 		if len(d) > 32 {
 			o := 24 + 4*r.Intn((len(d)-24)/4)
 			v := []uint32{0, 1, 2, 3, 4, 5, 7, 8, 9, 10, 11, 12, 13, 14, 15, 16, 17, 18, 20, 28, 1001, 1002, 1500, 1501, 0x7fffffff, 0x80000000, 0xfffffff8, 0xffffffff}
-			copy(d[o:], be32(v[r.Intn(len(v))]))
+			copy(d[o:], sfBe32(v[r.Intn(len(v))]))
 		}
 	case 4: // the length word of an extended-router record
 		if i := bytes.Index(d, []byte{0, 0, 3, 0xea}); i >= 0 && i+8 <= len(d) {
-			copy(d[i+4:], be32(uint32(r.Intn(32))))
+			copy(d[i+4:], sfBe32(uint32(r.Intn(32))))
 			if r.Intn(4) == 0 {
-				copy(d[i+4:], be32(ru32(r)))
+				copy(d[i+4:], sfBe32(ru32(r)))
 			}
 		}
 	case 5: // a sampled header cut short (header length and padding kept consistent elsewhere) or over-long
@@ -715,17 +715,17 @@ func truncHeaderCase(r *rand.Rand) []byte {
 	p.Rest = p.Rest[:min(len(p.Rest), 8)]
 	h := p.encode()
 	h = h[:r.Intn(len(h)+1)]
-	body := cat(be32(p.HdrProto), be32(ru32(r)), be32(0), be32(uint32(len(h))), h, xdrPad(len(h)))
-	rec := cat(be32(1), be32(uint32(len(body))), body)
-	s := cat(be32(ru32(r)), be32(7), be32(1), be32(2), be32(0), be32(3), be32(4), be32(1), rec)
-	return cat(be32(5), be32(1), []byte{10, 0, 0, 1}, be32(0), be32(1), be32(2), be32(1), be32(1), be32(uint32(len(s))), s)
+	body := sfCat(sfBe32(p.HdrProto), sfBe32(ru32(r)), sfBe32(0), sfBe32(uint32(len(h))), h, xdrPad(len(h)))
+	rec := sfCat(sfBe32(1), sfBe32(uint32(len(body))), body)
+	s := sfCat(sfBe32(ru32(r)), sfBe32(7), sfBe32(1), sfBe32(2), sfBe32(0), sfBe32(3), sfBe32(4), sfBe32(1), rec)
+	return sfCat(sfBe32(5), sfBe32(1), []byte{10, 0, 0, 1}, sfBe32(0), sfBe32(1), sfBe32(2), sfBe32(1), sfBe32(1), sfBe32(uint32(len(s))), s)
 }
 
 // ---------------------------------------------------------------- run
 
 var colRe = regexp.MustCompile(`"ColTime":\d+`)
 
-var errClasses = map[string]string{
+var sfErrClasses = map[string]string{
 	"EOF": "eof", "unexpected EOF": "eof",
 	"the sflow version doesn't support":          "version",
 	"the sflow data length is unknown":           "nolen",
@@ -745,8 +745,8 @@ var errClasses = map[string]string{
 	"the extended router data length is invalid": "rtrlen",
 }
 
-func errClass(err error) string {
-	if c, ok := errClasses[err.Error()]; ok {
+func sfErrClass(err error) string {
+	if c, ok := sfErrClasses[err.Error()]; ok {
 		return "err " + c
 	}
 	return "err other:" + strings.ReplaceAll(err.Error(), " ", "_")
@@ -773,7 +773,7 @@ func sfDecodeJSON(dg []byte, filter []uint32) (out string, dgm *sflow.SFDatagram
 	runtime.ReadMemStats(&m1)
 	alloc = m1.TotalAlloc - m0.TotalAlloc
 	if err != nil {
-		return errClass(err), nil, alloc
+		return sfErrClass(err), nil, alloc
 	}
 	b, err := json.Marshal(dgm)
 	if err != nil {
@@ -885,7 +885,7 @@ func genDissect(r *rand.Rand, n int, w *bufio.Writer) {
 			proto = uint32(r.Intn(14))
 		case 4: // double tag / odd ethertypes
 			if p.HdrProto == 1 && len(h) > 14 {
-				copy(h[12:], be16([]uint16{0x8100, 0x0806, 0x8809, 0x88a8}[r.Intn(4)]))
+				copy(h[12:], sfBe16([]uint16{0x8100, 0x0806, 0x8809, 0x88a8}[r.Intn(4)]))
 				if r.Intn(2) == 0 {
 					h = h[:14+r.Intn(6)]
 				}
@@ -906,7 +906,7 @@ func runDissect(st *state, line, expect string) (string, string) {
 	d, err := p.Decoder(append([]byte{}, h...), uint32(proto))
 	var out string
 	if err != nil {
-		out = errClass(err)
+		out = sfErrClass(err)
 	} else {
 		b, _ := json.Marshal(d)
 		out = string(b)
@@ -918,9 +918,3 @@ func runDissect(st *state, line, expect string) (string, string) {
 	return out, verdict
 }
 
-func min(a, b int) int {
-	if a < b {
-		return a
-	}
-	return b
-}
